@@ -11,6 +11,7 @@ package dynblock
 // value and diagnostics as in the full scope.
 
 import (
+	"bytes"
 	"fmt"
 	"sort"
 	"strings"
@@ -176,7 +177,113 @@ func verifUnknownMarks() (int, []string) {
 	return n, fails
 }
 
+// verifUnknownNested: an unknown for_each decodes to an unknown value without error diagnostics, also
+// when the content holds a nested dynamic block that refers to the outer iterator (which is then
+// itself unknown) - in every position where an iterator may be used.
+func verifUnknownNested() (int, []string) {
+	spec := &hcldec.BlockListSpec{
+		TypeName: "b",
+		Nested: hcldec.ObjectSpec{
+			"v": &hcldec.AttrSpec{Name: "v", Type: cty.DynamicPseudoType},
+			"c": &hcldec.BlockListSpec{TypeName: "c", Nested: &hcldec.AttrSpec{Name: "w", Type: cty.DynamicPseudoType}},
+		},
+	}
+	var fails []string
+	n := 0
+	for _, ofe := range []string{"unk", "dyn"} {
+		for _, itr := range []string{"", "iterator = it"} {
+			on := "b"
+			if itr != "" {
+				on = "it"
+			}
+			for _, ife := range []string{on + ".value.items", "[" + on + ".key]", on + ".value", "[\"k\"]"} {
+				for _, iv := range []string{"c.value", on + ".value", on + ".key", "\"lit\""} {
+					src := fmt.Sprintf("dynamic \"b\" {\n for_each = %s\n %s\n content {\n  v = %s.value\n  dynamic \"c\" {\n   for_each = %s\n   content {\n    w = %s\n   }\n  }\n }\n}\n", ofe, itr, on, ife, iv)
+					f, d := hclsyntax.ParseConfig([]byte(src), "t.hcl", hcl.InitialPos)
+					if d.HasErrors() {
+						continue
+					}
+					n++
+					ctx := &hcl.EvalContext{Variables: map[string]cty.Value{
+						"unk": cty.UnknownVal(cty.List(cty.Object(map[string]cty.Type{"items": cty.List(cty.String)}))),
+						"dyn": cty.DynamicVal,
+					}}
+					v, diags := hcldec.Decode(Expand(f.Body, ctx), spec, ctx)
+					if diags.HasErrors() {
+						fails = append(fails, fmt.Sprintf("input=%q an unknown for_each gives error diagnostics: %s", src, diags.Error()))
+					} else if v.IsWhollyKnown() {
+						fails = append(fails, fmt.Sprintf("input=%q an unknown for_each decodes to the wholly known value %#v", src, v))
+					}
+				}
+			}
+		}
+	}
+	return n, fails
+}
+
+// verifMarkedElementDiags (C19): diagnostics raised while evaluating the content of blocks generated
+// from a collection whose ELEMENTS are marked, rendered by the text writer with the evaluation
+// scope, must not show the marked strings / numbers.
+func verifMarkedElementDiags() (int, []string) {
+	const strCanary = "s3cr3t-CANARY-5b1e"
+	const numCanary = "7340219865"
+	var fails []string
+	n := 0
+	for _, coll := range []string{"secrets", "pins", "smap"} {
+		for _, itr := range []string{"", "iterator = it"} {
+			on := "b"
+			if itr != "" {
+				on = "it"
+			}
+			for _, bad := range []string{on + ".value + 1", "!" + on + ".value", on + ".value.name", on + ".value[0]", "\"${" + on + ".value}\" + 1", on + ".key.x"} {
+				src := fmt.Sprintf("dynamic \"b\" {\n for_each = %s\n %s\n content {\n  v = %s\n }\n}\n", coll, itr, bad)
+				f, d := hclsyntax.ParseConfig([]byte(src), "t.hcl", hcl.InitialPos)
+				if d.HasErrors() {
+					continue
+				}
+				n++
+				ctx := &hcl.EvalContext{Variables: map[string]cty.Value{
+					"secrets": cty.ListVal([]cty.Value{cty.StringVal(strCanary).Mark("sensitive")}),
+					"pins":    cty.TupleVal([]cty.Value{cty.MustParseNumberVal(numCanary).Mark("sensitive")}),
+					"smap":    cty.MapVal(map[string]cty.Value{"k": cty.StringVal(strCanary).Mark("sensitive")}),
+				}}
+				content, diags := Expand(f.Body, ctx).Content(&hcl.BodySchema{Blocks: []hcl.BlockHeaderSchema{{Type: "b"}}})
+				for _, blk := range content.Blocks {
+					attrs, ad := blk.Body.JustAttributes()
+					diags = append(diags, ad...)
+					for _, a := range attrs {
+						_, vd := a.Expr.Value(ctx)
+						diags = append(diags, vd...)
+					}
+				}
+				files := map[string]*hcl.File{"t.hcl": f}
+				for _, dg := range diags {
+					var buf bytes.Buffer
+					if err := hcl.NewDiagnosticTextWriter(&buf, files, 0, false).WriteDiagnostic(dg); err != nil {
+						continue
+					}
+					text := buf.String() + dg.Summary + dg.Detail
+					if strings.Contains(text, strCanary) || strings.Contains(text, numCanary) {
+						fails = append(fails, fmt.Sprintf("input=%q a rendered diagnostic shows the content of a marked element: %q", src, text))
+						break
+					}
+				}
+			}
+		}
+	}
+	return n, fails
+}
+
 func TestVerifReplayDynVariables(t *testing.T) {
+	kn, kfails := verifUnknownNested()
+	for _, m := range kfails {
+		t.Errorf("REPLAY-FAIL func=dynblock.(*expandBody).expandBlocks %s", m)
+	}
+	mn, mfails := verifMarkedElementDiags()
+	for _, m := range mfails {
+		t.Errorf("REPLAY-FAIL func=dynblock.(*expandBody).expandBlocks %s", m)
+	}
+	fmt.Printf("STANDIN inputs=%d bound=\"unknown for_each with a nested dynamic block using the outer iterator in every position; marked collection elements in erroneous content rendered by the text writer\"\n", kn+mn)
 	un, ufails := verifUnknownMarks()
 	for _, m := range ufails {
 		t.Errorf("REPLAY-FAIL func=hcldec.unknownBody %s", m)
